@@ -52,6 +52,12 @@ func (m *IdentMatcher) PartialMatch(ident string, exactCase bool) bool {
 	return strings.HasPrefix(strings.ToLower(ident), strings.ToLower(partial))
 }
 
+// IsUnder returns true if the IdentMatcher's pattern addresses a member below the given path,
+// e.g. the pattern "User.Name" is under the path "User".
+func (m *IdentMatcher) IsUnder(path string) bool {
+	return strings.HasPrefix(m.pattern, path+".")
+}
+
 // ForGetter returns true if the path at the given index represents a method that returns a value.
 func (m *IdentMatcher) ForGetter(at int) bool {
 	return strings.HasSuffix(m.paths[at], "()")
